@@ -32,6 +32,12 @@ Code(c) == CASE c = "chainInput"    -> "INT-01"   \* chain k input = output of c
              [] c = "inputAlg"      -> "INT-13"   \* input hash algorithm not deprecated at signing time
              [] c = "aggrAlg"       -> "INT-15"   \* aggregation algorithm not deprecated at aggregation time
              [] c = "chainLevel"    -> "ERR"      \* a link's level correction takes the level out of 0..255: not a verdict, the chain cannot be evaluated
+             \* legacy signatures: an RFC 3161 record precedes the first aggregation chain
+             [] c = "rfcOutput"     -> "INT-01"   \* first chain input = output hash of the RFC 3161 record
+             [] c = "rfcTime"       -> "INT-02"   \* the record's aggregation time = the chains' time
+             [] c = "rfcIndex"      -> "INT-12"   \* the record's chain index = the first chain's (element by element AND in length)
+             [] c = "rfcAlg"        -> "INT-14"   \* TST-info / signed-attributes hash algorithm not deprecated at aggregation time
+             [] c = "rfcOutAlg"     -> "INT-17"   \* output hash algorithm (= algorithm of the first chain's input hash) not deprecated at aggregation time
              [] c = "docHash"       -> "GEN-01"
              [] c = "docLevel"      -> "GEN-03"
              [] c = "docAlg"        -> "GEN-04"
@@ -43,6 +49,7 @@ PadValid(p) == IF p.present
                  ELSE ~p.imprintLike
 
 (* ---- a case ---- *)
+(* s.rfc (legacy signature: the document hash is the RFC 3161 record's input hash; any input level above 0 is too large: GEN-03)         *)
 (* s.nch, s.cal, s.anchor \in {"none","pub","auth"}, s.pads (set of padding forms used by metadata links),        *)
 (* s.viol (set of [c, at]), s.doc \in {"absent","equal","digest","alg"}, s.level \in {"none","ok","over","huge"}  *)
 (* How the document hash and level reach the verifier is NOT part of the state: the verdict is the same through every entry point --  *)
@@ -52,7 +59,7 @@ PadValid(p) == IF p.present
 EntryPoints == {"verifier", "withPolicyArgs", "withPolicyCtx", "parseWithPolicy"}
 Violated(s) == {v.c : v \in s.viol} \cup (IF \E p \in s.pads : ~PadValid(p) THEN {"padding"} ELSE {})
                \cup (IF s.doc = "digest" THEN {"docHash"} ELSE {}) \cup (IF s.doc = "alg" THEN {"docAlg"} ELSE {})
-               \cup (IF s.level = "over" THEN {"docLevel"} ELSE {})
+               \cup (IF s.level = "over" \/ (s.rfc /\ s.level = "ok") THEN {"docLevel"} ELSE {})
 Has(s, c) == c \in Violated(s)
 Consistent(s) == Violated(s) = {} /\ s.level # "huge"
 
@@ -71,13 +78,15 @@ RuleOut(s, r) ==
       [] r = "DocumentHashVerification" -> Unless(s, "docHash")
       [] r = "AggregationChainInputLevelVerification" -> IF s.level = "huge" THEN Err ELSE Unless(s, "docLevel")
       [] r = "AggregationChainInputHashAlgorithmVerification" -> Unless(s, "inputAlg")
-      [] r = "Rfc3161DoesNotExist" -> OK
-      [] r = "Rfc3161Existence" -> NA0
-      [] r = "AggregationChainInputHashVerification" -> OK
+      [] r = "Rfc3161DoesNotExist" -> Present(~s.rfc)
+      [] r = "Rfc3161Existence" -> Present(s.rfc)
+      [] r = "Rfc3161RecordHashAlgorithmVerification" -> Unless(s, "rfcAlg")
+      [] r = "Rfc3161RecordOutputHashAlgorithmVerification" -> Unless(s, "rfcOutAlg")
+      [] r = "AggregationChainInputHashVerification" -> Unless(s, "rfcOutput")
       [] r = "AggregationChainMetaDataVerification" -> Unless(s, "padding")
       [] r = "AggregationChainHashAlgorithmVerification" -> Unless(s, "aggrAlg")
-      [] r = "AggregationHashChainIndexContinuation" -> Unless(s, "indexCont")
-      [] r = "AggregationHashChainTimeConsistency" -> Unless(s, "chainTime")
+      [] r = "AggregationHashChainIndexContinuation" -> IF Has(s, "rfcIndex") THEN Fail("rfcIndex") ELSE Unless(s, "indexCont")
+      [] r = "AggregationHashChainTimeConsistency" -> IF Has(s, "rfcTime") THEN Fail("rfcTime") ELSE Unless(s, "chainTime")
       [] r = "AggregationHashChainConsistency" -> IF Has(s, "chainLevel") THEN Err ELSE Unless(s, "chainInput")
       [] r = "AggregationHashChainIndexConsistency" -> Unless(s, "indexShape")
       [] r = "CalendarHashChainDoesNotExist" -> Present(~s.cal)
@@ -108,7 +117,8 @@ CalendarRule == <<Or(<<B("CalendarHashChainDoesNotExist")>>),
                        B("CalendarHashChainRegistrationTime"), B("CalendarChainHashAlgorithmObsoleteAtPubTime"), And(PubOrAuthRule)>>)>>
 DocumentRule == <<Or(<<B("DocumentHashDoesNotExist")>>),
                   Or(<<B("DocumentHashExistence"), B("InputHashAlgorithmVerification"), B("DocumentHashVerification")>>)>>
-Rfc3161Rule == <<Or(<<B("Rfc3161DoesNotExist")>>), Or(<<B("Rfc3161Existence")>>)>>
+Rfc3161Rule == <<Or(<<B("Rfc3161DoesNotExist")>>),
+                 Or(<<B("Rfc3161Existence"), B("Rfc3161RecordHashAlgorithmVerification"), B("Rfc3161RecordOutputHashAlgorithmVerification")>>)>>
 InternalRules == <<And(DocumentRule), B("AggregationChainInputLevelVerification"), B("AggregationChainInputHashAlgorithmVerification"),
                    And(Rfc3161Rule), B("AggregationChainInputHashVerification"), B("AggregationChainMetaDataVerification"),
                    B("AggregationChainHashAlgorithmVerification"), B("AggregationHashChainIndexContinuation"),
